@@ -47,7 +47,11 @@ def main():
         meta['suite_passes'] = rcs == 0
         if o0 is not None:
             rc1, o1 = run([PY, 'rf_demo.py'], wt, env, 600)
-            meta['demo_output_identical'] = (o0 == o1)
+            # stderr is compared too; the line number in the location prefix of a warning ("data.py:553: XWarning:")
+            # moves with any edit above it and is not behaviour
+            import re
+            norm = lambda t: re.sub(r'(\.py):\d+:', r'\1:N:', t)     # noqa: E731
+            meta['demo_output_identical'] = (norm(o0) == norm(o1))
         alarms = {}
         for i in range(1, 21):
             pid = f'C{i:02d}'
